@@ -777,90 +777,610 @@ Qed.
 Lemma ldap_run c : run_impl SVC_LDAP c = expected SVC_LDAP (concat c).
 Proof. unfold run_impl, expected. apply persistent_obs. apply ldap_persistent. Qed.
 
-(* ---- telnet: the terminal's line discipline is a function of the byte stream ---- *)
-Lemma tn_feed_app a : forall st b,
-  tn_feed st (a ++ b) =
-  let '(st1, e1) := tn_feed st a in let '(st2, e2) := tn_feed st1 b in (st2, e1 ++ e2).
+(* ---- telnet: the terminal's key decoder with its remainder buffer ---- *)
+(* bytesToKey is monotone: a key (or an undecodable byte) decided on the bytes held stays
+   decided, with the same bytes consumed, when more bytes follow; what is not decided is
+   kept whole.  Hence decoding a ++ x = decoding a, then (remainder ++ x) - for all byte
+   strings - and by induction over the reads of a segment and over the segments the
+   connection's events are those of the whole stream.  The stall after an undecodable byte
+   of the code before 1a2f0db was the one thing that depended on the reads; it is never
+   reached on a stream that decodes without one. *)
+(* ---- has_prefix / find_final ---- *)
+Lemma has_prefix_app q : forall a x, has_prefix q a = true -> has_prefix q (a ++ x) = true.
 Proof.
-  induction a as [|x a IH]; intros st b; cbn [app tn_feed].
-  - destruct (tn_feed st b) as [st2 e2]. reflexivity.
-  - destruct (tn_key st x) as [st1 e1]. rewrite IH.
-    destruct (tn_feed st1 a) as [st2 e2]. destruct (tn_feed st2 b) as [st3 e3].
-    rewrite app_assoc. reflexivity.
+  induction q as [|y q IH]; intros a x H; [reflexivity|].
+  destruct a as [|z a]; cbn [has_prefix app] in *; [discriminate|].
+  apply andb_true_iff in H as [H1 H2]. rewrite H1, (IH _ _ H2). reflexivity.
 Qed.
 
-(* induction over the list of segments: feeding them one Read after the other is feeding
-   their concatenation *)
-Lemma tn_feed_segs_concat c : forall st, tn_feed_segs st c = tn_feed st (concat c).
+Lemma has_prefix_length q : forall a, has_prefix q a = true -> length q <= length a.
 Proof.
-  induction c as [|s r IH]; intros st; cbn [tn_feed_segs concat]; [reflexivity|].
-  rewrite tn_feed_app. destruct (tn_feed st s) as [st1 e1]. rewrite IH. reflexivity.
+  induction q as [|y q IH]; intros a H; cbn [length]; [lia|].
+  destruct a as [|z a]; cbn [has_prefix length] in *; [discriminate|].
+  apply andb_true_iff in H as [_ H2]. apply IH in H2. lia.
 Qed.
+
+(* a known sequence recognised only after more bytes arrived: the bytes held so far are a
+   proper prefix of it, and hold none of its bytes in [a-zA-Z~] (that one is its last) *)
+Definition final_last (q : bytes) : Prop := forallb (fun c => negb (is_final c)) (removelast q) = true.
+
+Lemma has_prefix_late q : forall a x,
+  final_last q -> has_prefix q (a ++ x) = true -> has_prefix q a = false ->
+  find_final a = None /\ length a < length q.
+Proof.
+  induction q as [|y q IH]; intros a x Hq H1 H2; [discriminate|].
+  destruct a as [|z a]; [cbn; split; [reflexivity|lia]|].
+  cbn [has_prefix app] in *. apply andb_true_iff in H1 as [Hyz H1]. rewrite Hyz in H2. cbn [andb] in H2.
+  destruct q as [|y2 q]; [discriminate|].
+  unfold final_last in Hq. cbn [removelast forallb] in Hq. apply andb_true_iff in Hq as [Hy Hq].
+  destruct (IH a x Hq H1 H2) as [F L].
+  unfold beq in Hyz. apply N.eqb_eq in Hyz. subst z.
+  cbn [find_final length] in *. apply negb_true_iff in Hy. rewrite Hy, F. split; [reflexivity|lia].
+Qed.
+
+Lemma find_final_app a : forall x i, find_final a = Some i -> find_final (a ++ x) = Some i.
+Proof.
+  induction a as [|c a IH]; intros x i H; [discriminate|].
+  cbn [find_final app] in *. destruct (is_final c); [assumption|].
+  destruct (find_final a) as [j|] eqn:E; [|discriminate]. rewrite (IH x j eq_refl). assumption.
+Qed.
+
+Lemma find_final_lt a : forall i, find_final a = Some i -> i < length a.
+Proof.
+  induction a as [|c a IH]; intros i H; [discriminate|].
+  cbn [find_final length] in *. destruct (is_final c); [inversion H; lia|].
+  destruct (find_final a) as [j|]; [|discriminate]. inversion H. specialize (IH j eq_refl). lia.
+Qed.
+
+Lemma find_final_none_app a : forall x, find_final a = None -> find_final (a ++ x) = option_map (fun i => length a + i) (find_final x).
+Proof.
+  induction a as [|c a IH]; intros x H; cbn [app length].
+  - destruct (find_final x); reflexivity.
+  - cbn [find_final] in *. destruct (is_final c); [discriminate|].
+    destruct (find_final a) eqn:E; [discriminate|]. rewrite (IH x eq_refl).
+    destruct (find_final x); reflexivity.
+Qed.
+
+Lemma firstn_app_l {A} n (a x : list A) : n <= length a -> firstn n (a ++ x) = firstn n a.
+Proof. intros H. rewrite firstn_app. replace (n - length a) with 0 by lia. cbn [firstn]. apply app_nil_r. Qed.
+Lemma skipn_app_l {A} n (a x : list A) : n <= length a -> skipn n (a ++ x) = skipn n a ++ x.
+Proof. intros H. rewrite skipn_app. replace (n - length a) with 0 by lia. reflexivity. Qed.
+
+(* ---- esc_lookup ---- *)
+Definition table_ok (tbl : list (bytes * tkey)) : Prop := Forall (fun e : bytes * tkey => final_last (fst e) /\ 1 <= length (fst e)) tbl.
+
+Lemma esc_lookup_some tbl : forall b k n, esc_lookup tbl b = Some (k, n) -> table_ok tbl -> 1 <= n <= length b.
+Proof.
+  induction tbl as [|[q k0] t IH]; intros b k n H T; [discriminate|].
+  cbn [esc_lookup] in H. inversion T as [|? ? [_ T1] T2]; subst. cbn [fst] in T1.
+  destruct (has_prefix q b) eqn:E.
+  - inversion H; subst. apply has_prefix_length in E. lia.
+  - eapply IH; eassumption.
+Qed.
+
+Lemma esc_lookup_app tbl : forall b x r, esc_lookup tbl b = Some r -> table_ok tbl ->
+  find_final b <> None -> esc_lookup tbl (b ++ x) = Some r.
+Proof.
+  induction tbl as [|[q k0] t IH]; intros b x r H T F; [discriminate|].
+  cbn [esc_lookup] in *. inversion T as [|? ? [T0 T1] T2]; subst. cbn [fst] in *.
+  destruct (has_prefix q b) eqn:E.
+  - rewrite (has_prefix_app _ _ x E). assumption.
+  - destruct (has_prefix q (b ++ x)) eqn:E2.
+    + destruct (has_prefix_late q b x T0 E2 E) as [F2 _]. congruence.
+    + apply IH; assumption.
+Qed.
+
+Lemma esc_lookup_none_app tbl : forall b x, esc_lookup tbl b = None -> table_ok tbl ->
+  (find_final b <> None \/ 6 <= length b) -> Forall (fun e : bytes * tkey => length (fst e) <= 6) tbl ->
+  esc_lookup tbl (b ++ x) = None.
+Proof.
+  induction tbl as [|[q k0] t IH]; intros b x H T F L; [reflexivity|].
+  cbn [esc_lookup] in *. inversion T as [|? ? [T0 T1] T2]; subst. inversion L as [|? ? L1 L2]; subst. cbn [fst] in *.
+  destruct (has_prefix q b) eqn:E; [discriminate|].
+  destruct (has_prefix q (b ++ x)) eqn:E2.
+  - destruct (has_prefix_late q b x T0 E2 E) as [F2 F3]. destruct F as [F|F]; [congruence|lia].
+  - apply IH; assumption.
+Qed.
+
+Lemma ESC_TABLE_ok : table_ok ESC_TABLE.
+Proof. unfold table_ok, ESC_TABLE. repeat constructor. Qed.
+Lemma ESC_TABLE_PASTE_ok : table_ok ESC_TABLE_PASTE.
+Proof. unfold table_ok, ESC_TABLE_PASTE. repeat constructor. Qed.
+Lemma ESC_TABLE_len : Forall (fun e : bytes * tkey => length (fst e) <= 6) ESC_TABLE.
+Proof. unfold ESC_TABLE. repeat constructor. Qed.
+Lemma ESC_TABLE_PASTE_len : Forall (fun e : bytes * tkey => length (fst e) <= 6) ESC_TABLE_PASTE.
+Proof. unfold ESC_TABLE_PASTE. repeat constructor. Qed.
+Lemma tbl_ok (paste : bool) : table_ok (if paste then ESC_TABLE_PASTE else ESC_TABLE).
+Proof. destruct paste; [apply ESC_TABLE_PASTE_ok|apply ESC_TABLE_ok]. Qed.
+Lemma tbl_len (paste : bool) : Forall (fun e : bytes * tkey => length (fst e) <= 6) (if paste then ESC_TABLE_PASTE else ESC_TABLE).
+Proof. destruct paste; [apply ESC_TABLE_PASTE_len|apply ESC_TABLE_len]. Qed.
+
+(* ---- utf8 ---- *)
+Ltac u8_cases :=
+  repeat match goal with
+  | |- context [if ?c then _ else _] => destruct c eqn:?
+  | H : context [if ?c then _ else _] |- _ => destruct c eqn:?
+  | H : context [match u8_lead ?b with _ => _ end] |- _ => destruct (u8_lead b) as [[[? ?] ?]|] eqn:?
+  | |- context [match u8_lead ?b with _ => _ end] => destruct (u8_lead b) as [[[? ?] ?]|] eqn:?
+  end.
+
+Lemma u8_head_rune b n : u8_head b = U8Rune n -> 1 <= n <= length b.
+Proof.
+  destruct b as [|b0 [|b1 [|b2 [|b3 t]]]]; cbn [u8_head length]; intros H; u8_cases;
+    try discriminate; inversion H; subst; lia.
+Qed.
+
+Lemma u8_head_app_rune b x n : u8_head b = U8Rune n -> u8_head (b ++ x) = U8Rune n.
+Proof.
+  destruct b as [|b0 [|b1 [|b2 [|b3 t]]]]; cbn [u8_head app]; intros H; u8_cases;
+    try discriminate; try assumption; try congruence.
+Qed.
+
+Lemma u8_head_app_bad b x : u8_head b = U8Bad -> u8_head (b ++ x) = U8Bad.
+Proof.
+  destruct b as [|b0 [|b1 [|b2 [|b3 t]]]]; cbn [u8_head app]; intros H; u8_cases;
+    try discriminate; try assumption; try congruence.
+Qed.
+
+Lemma u8_head_more b : u8_head b = U8More -> length b < 4.
+Proof.
+  destruct b as [|b0 [|b1 [|b2 [|b3 t]]]]; cbn [u8_head length]; intros H; u8_cases;
+    try discriminate; lia.
+Qed.
+
+(* ---- next_key: what is decided stays decided when more bytes arrive ---- *)
+Definition consumed (b r : bytes) : Prop := exists n, 1 <= n <= length b /\ r = skipn n b.
+
+Lemma consumed_tail b0 r : consumed (b0 :: r) r.
+Proof. exists 1. cbn [length skipn]. split; [lia|reflexivity]. Qed.
+
+Lemma consumed_app b r x : consumed b r -> skipn (length b - length r) (b ++ x) = r ++ x /\ length r < length b.
+Proof.
+  intros [n [Hn ->]]. rewrite skipn_length. replace (length b - (length b - n)) with n by lia.
+  rewrite skipn_app_l by lia. split; [reflexivity|lia].
+Qed.
+
+Lemma esc_key_spec paste b :
+  match esc_key paste b with
+  | NMore => length b < TN_INBUF
+  | NBad r | NSkip r | NKey _ r => consumed b r
+  end.
+Proof.
+  unfold esc_key. destruct (esc_lookup _ b) as [[k n]|] eqn:E.
+  - exists n. split; [|reflexivity]. eapply esc_lookup_some; [eassumption|apply tbl_ok].
+  - destruct (find_final (firstn TN_INBUF b)) as [i|] eqn:F.
+    + exists (S i). split; [|reflexivity]. apply find_final_lt in F. rewrite firstn_length in F. lia.
+    + destruct (TN_INBUF <=? length b) eqn:L.
+      * apply Nat.leb_le in L. exists TN_INBUF. unfold TN_INBUF in *. split; [lia|reflexivity].
+      * apply Nat.leb_gt in L. assumption.
+Qed.
+
+Lemma next_key_spec paste b :
+  match next_key paste b with
+  | NMore => length b < TN_INBUF
+  | NBad r | NSkip r | NKey _ r => consumed b r
+  end.
+Proof.
+  destruct b as [|b0 r]; [cbn; unfold TN_INBUF; lia|].
+  unfold next_key.
+  repeat match goal with |- context [if ?c then _ else _] =>
+    match c with
+    | beq b0 ESC => fail 1
+    | _ => destruct c; [apply consumed_tail|]
+    end end.
+  destruct (beq b0 ESC); [apply esc_key_spec|].
+  destruct (u8_head (b0 :: r)) as [| |n] eqn:U.
+  - apply u8_head_more in U. unfold TN_INBUF. lia.
+  - apply consumed_tail.
+  - apply u8_head_rune in U. cbv zeta. destruct (beqs _ U_FFFD); exists n; (split; [assumption|reflexivity]).
+Qed.
+
+Lemma esc_key_app paste b x :
+  match esc_key paste b with
+  | NMore => True
+  | NBad r => esc_key paste (b ++ x) = NBad (r ++ x)
+  | NSkip r => esc_key paste (b ++ x) = NSkip (r ++ x)
+  | NKey k r => esc_key paste (b ++ x) = NKey k (r ++ x)
+  end.
+Proof.
+  unfold esc_key. destruct (esc_lookup _ b) as [[k n]|] eqn:E.
+  - pose proof (esc_lookup_some _ _ _ _ E (tbl_ok paste)) as Hn.
+    assert (F : find_final b <> None).
+    { (* a recognised sequence ends in a byte of [a-zA-Z~] *)
+      clear Hn. destruct paste; unfold ESC_TABLE, ESC_TABLE_PASTE, PASTE_START, PASTE_END in E; cbn [esc_lookup] in E;
+      repeat match type of E with
+      | (if has_prefix ?q b then _ else _) = _ =>
+          let P := fresh "P" in destruct (has_prefix q b) eqn:P;
+          [ clear E; repeat (destruct b as [|? b]; [discriminate P|]; cbn [has_prefix] in P;
+              apply andb_true_iff in P as [?Q P]; unfold beq in Q; apply N.eqb_eq in Q; subst);
+            cbn; discriminate | ]
+      end; discriminate. }
+    rewrite (esc_lookup_app _ _ x _ E (tbl_ok paste) F). rewrite skipn_app_l by lia. reflexivity.
+  - destruct (find_final (firstn TN_INBUF b)) as [i|] eqn:F.
+    + assert (Fb : find_final b <> None).
+      { rewrite <- (firstn_skipn TN_INBUF b). rewrite (find_final_app _ _ _ F). discriminate. }
+      rewrite (esc_lookup_none_app _ _ x E (tbl_ok paste) (or_introl Fb) (tbl_len paste)).
+      rewrite firstn_app. rewrite (find_final_app _ _ _ F).
+      pose proof (find_final_lt _ _ F) as L. rewrite firstn_length in L.
+      rewrite skipn_app_l by lia. reflexivity.
+    + destruct (TN_INBUF <=? length b) eqn:L; [|exact I].
+      apply Nat.leb_le in L.
+      rewrite (esc_lookup_none_app _ _ x E (tbl_ok paste)); [| right; unfold TN_INBUF in L; lia | apply tbl_len].
+      rewrite firstn_app_l by lia. rewrite F.
+      rewrite app_length. replace (TN_INBUF <=? length b + length x) with true by (symmetry; apply Nat.leb_le; lia).
+      rewrite skipn_app_l by lia. reflexivity.
+Qed.
+
+Lemma next_key_app paste b x :
+  match next_key paste b with
+  | NMore => True
+  | NBad r => next_key paste (b ++ x) = NBad (r ++ x)
+  | NSkip r => next_key paste (b ++ x) = NSkip (r ++ x)
+  | NKey k r => next_key paste (b ++ x) = NKey k (r ++ x)
+  end.
+Proof.
+  destruct b as [|b0 r]; [exact I|].
+  pose proof (esc_key_app paste (b0 :: r) x) as HE.
+  unfold next_key in *. cbn [app] in *.
+  repeat match goal with |- context [if ?c then _ else _] =>
+    match c with
+    | beq b0 ESC => fail 1
+    | _ => destruct c; [reflexivity|]
+    end end.
+  destruct (beq b0 ESC); [exact HE|]. clear HE.
+  destruct (u8_head (b0 :: r)) as [| |n] eqn:U.
+  - exact I.
+  - change (b0 :: r ++ x) with ((b0 :: r) ++ x). rewrite (u8_head_app_bad _ x U). reflexivity.
+  - change (b0 :: r ++ x) with ((b0 :: r) ++ x). rewrite (u8_head_app_rune _ x _ U).
+    apply u8_head_rune in U. cbv zeta. rewrite firstn_app_l by lia. rewrite skipn_app_l by lia.
+    destruct (beqs _ U_FFFD); reflexivity.
+Qed.
+
+(* ---- the key loop ---- *)
+Lemma consumed_lt b r : consumed b r -> length r < length b.
+Proof. intros [n [Hn ->]]. rewrite skipn_length. lia. Qed.
+
+Lemma tn_keys_fuel s : forall f1 f2 st b, length b < f1 -> length b < f2 -> tn_keys s f1 st b = tn_keys s f2 st b.
+Proof.
+  induction f1 as [|f1 IH]; intros f2 st b H1 H2; [lia|]. destruct f2 as [|f2]; [lia|].
+  cbn [tn_keys]. destruct (is_end st); [reflexivity|].
+  pose proof (next_key_spec (t_paste st) b) as HS. destruct (next_key (t_paste st) b) as [|r|r|k r]; [reflexivity| | |].
+  - apply consumed_lt in HS. destruct s; [reflexivity|]. apply IH; lia.
+  - apply consumed_lt in HS. apply IH; lia.
+  - apply consumed_lt in HS. destruct (tn_key st k) as [st1 e1]. rewrite (IH f2 st1 r) by lia. reflexivity.
+Qed.
+
+Lemma tn_dec_step s st b :
+  tn_dec s st b =
+  if is_end st then (st, [], b)
+  else match next_key (t_paste st) b with
+       | NMore => (st, [], b)
+       | NBad r => if s then (tn_mark_bad st, [], r) else tn_dec s (tn_mark_bad st) r
+       | NSkip r => tn_dec s st r
+       | NKey k r => let '(st1, e1) := tn_key st k in
+                     let '(st2, e2, r2) := tn_dec s st1 r in (st2, e1 ++ e2, r2)
+       end.
+Proof.
+  unfold tn_dec at 1. cbn [tn_keys]. destruct (is_end st); [reflexivity|].
+  pose proof (next_key_spec (t_paste st) b) as HS. destruct (next_key (t_paste st) b) as [|r|r|k r]; [reflexivity| | |].
+  - apply consumed_lt in HS. destruct s; [reflexivity|]. unfold tn_dec. apply tn_keys_fuel; lia.
+  - apply consumed_lt in HS. unfold tn_dec. apply tn_keys_fuel; lia.
+  - apply consumed_lt in HS. destruct (tn_key st k) as [st1 e1]. unfold tn_dec.
+    rewrite (tn_keys_fuel s (length b) (S (length r)) st1 r) by lia. reflexivity.
+Qed.
+
+(* the decoder with the remainder: decoding a ++ x = decoding a, keeping what is not decodable
+   yet (r1), then decoding r1 ++ x.  For ALL byte strings a, x. *)
+Lemma tn_dec_app : forall n a, length a < n -> forall st x,
+  tn_dec false st (a ++ x) =
+  let '(st1, e1, r1) := tn_dec false st a in
+  let '(st2, e2, r2) := tn_dec false st1 (r1 ++ x) in (st2, e1 ++ e2, r2).
+Proof.
+  induction n as [|n IH]; intros a Hn st x; [lia|].
+  rewrite (tn_dec_step false st a).
+  destruct (is_end st) eqn:En.
+  - cbv zeta. destruct (tn_dec false st (a ++ x)) as [[st2 e2] r2]. reflexivity.
+  - pose proof (next_key_spec (t_paste st) a) as HS. pose proof (next_key_app (t_paste st) a x) as A.
+    destruct (next_key (t_paste st) a) as [|r|r|k r] eqn:K.
+    + cbv zeta. destruct (tn_dec false st (a ++ x)) as [[st2 e2] r2]. reflexivity.
+    + apply consumed_lt in HS. rewrite (tn_dec_step false st (a ++ x)), En, A. apply IH. lia.
+    + apply consumed_lt in HS. rewrite (tn_dec_step false st (a ++ x)), En, A. apply IH. lia.
+    + apply consumed_lt in HS. rewrite (tn_dec_step false st (a ++ x)), En, A.
+      destruct (tn_key st k) as [st1 e1]. rewrite (IH r) by lia.
+      destruct (tn_dec false st1 r) as [[st2 e2] r2].
+      destruct (tn_dec false st2 (r2 ++ x)) as [[st3 e3] r3]. rewrite app_assoc. reflexivity.
+Qed.
+
+(* what the loop leaves in the remainder is not decodable yet (or the session has ended) *)
+Definition tn_waiting (st : tn_st) (r : bytes) : Prop := is_end st = true \/ next_key (t_paste st) r = NMore.
+
+Lemma tn_dec_waiting : forall n b, length b < n -> forall st,
+  let '(st1, _, r1) := tn_dec false st b in tn_waiting st1 r1.
+Proof.
+  induction n as [|n IH]; intros b Hn st; [lia|].
+  rewrite tn_dec_step. destruct (is_end st) eqn:En; [left; assumption|].
+  pose proof (next_key_spec (t_paste st) b) as HS.
+  destruct (next_key (t_paste st) b) as [|r|r|k r] eqn:K.
+  - right. assumption.
+  - apply consumed_lt in HS. apply (IH r); lia.
+  - apply consumed_lt in HS. apply (IH r); lia.
+  - apply consumed_lt in HS. destruct (tn_key st k) as [st1 e1].
+    specialize (IH r ltac:(lia) st1). destruct (tn_dec false st1 r) as [[st2 e2] r2]. assumption.
+Qed.
+
+Lemma tn_waiting_dec st r : tn_waiting st r -> tn_dec false st r = (st, [], r).
+Proof. intros [H|H]; rewrite tn_dec_step; [rewrite H; reflexivity|]. destruct (is_end st); [reflexivity|]. rewrite H. reflexivity. Qed.
+
+Lemma tn_waiting_short st r : tn_waiting st r -> is_end st = false -> length r < TN_INBUF.
+Proof. intros [H|H] E; [congruence|]. pose proof (next_key_spec (t_paste st) r) as HS. rewrite H in HS. assumption. Qed.
+
+(* ---- the bookkeeping flag is sticky ---- *)
+Lemma tn_handle_bad st k : t_bad (fst (tn_handle st k)) = t_bad st.
+Proof.
+  unfold tn_handle, tn_complete, tn_erase.
+  repeat match goal with
+  | |- context [if ?c then _ else _] => destruct c
+  | |- context [match ?k with KRune _ => _ | _ => _ end] => destruct k
+  | |- context [match t_stage ?s with _ => _ end] => destruct (t_stage s)
+  end; reflexivity.
+Qed.
+
+Lemma tn_key_bad st k : t_bad (fst (tn_key st k)) = t_bad st.
+Proof.
+  unfold tn_key. destruct (is_end st); [reflexivity|].
+  destruct (negb (t_paste st)).
+  - destruct (rune_is k 4 && _); [reflexivity|]. destruct k; try (rewrite tn_handle_bad; reflexivity). reflexivity.
+  - destruct k; try (rewrite tn_handle_bad; reflexivity). reflexivity.
+Qed.
+
+Lemma tn_dec_bad_mono s : forall n b, length b < n -> forall st,
+  t_bad st = true -> t_bad (fst (fst (tn_dec s st b))) = true.
+Proof.
+  induction n as [|n IH]; intros b Hn st B; [lia|].
+  rewrite tn_dec_step. destruct (is_end st); [assumption|].
+  pose proof (next_key_spec (t_paste st) b) as HS.
+  destruct (next_key (t_paste st) b) as [|r|r|k r] eqn:K.
+  - assumption.
+  - apply consumed_lt in HS. destruct s; [reflexivity|]. apply IH; [lia|reflexivity].
+  - apply consumed_lt in HS. apply IH; [lia|assumption].
+  - apply consumed_lt in HS. pose proof (tn_key_bad st k) as KB. destruct (tn_key st k) as [st1 e1]. cbn [fst] in KB.
+    specialize (IH r ltac:(lia) st1 ltac:(congruence)).
+    destruct (tn_dec s st1 r) as [[st2 e2] r2]. assumption.
+Qed.
+
+(* when no undecodable byte is met, the loop never stalls: the code's loop is the reference's *)
+Lemma tn_dec_stall : forall n b, length b < n -> forall st,
+  t_bad (fst (fst (tn_dec false st b))) = false -> tn_dec true st b = tn_dec false st b.
+Proof.
+  induction n as [|n IH]; intros b Hn st B; [lia|].
+  rewrite (tn_dec_step false) in B. rewrite !tn_dec_step.
+  destruct (is_end st); [reflexivity|].
+  pose proof (next_key_spec (t_paste st) b) as HS.
+  destruct (next_key (t_paste st) b) as [|r|r|k r] eqn:K.
+  - reflexivity.
+  - rewrite (tn_dec_bad_mono false (S (length r)) r) in B by (lia || reflexivity). discriminate.
+  - apply consumed_lt in HS. apply IH; [lia|assumption].
+  - apply consumed_lt in HS. destruct (tn_key st k) as [st1 e1].
+    rewrite (IH r) by (lia || (destruct (tn_dec false st1 r) as [[? ?] ?]; exact B)). reflexivity.
+Qed.
+
+(* ---- segments: Read after Read, with the remainder carried over ---- *)
+Definition tn_ok (s : bool) (st : tn_st) (b : bytes) : Prop :=
+  s = false \/ t_bad (fst (fst (tn_dec false st b))) = false.
+
+Lemma tn_dec_any s st b : tn_ok s st b -> tn_dec s st b = tn_dec false st b.
+Proof. intros [->|H]; [reflexivity|]. destruct s; [|reflexivity]. apply (tn_dec_stall (S (length b))); [lia|assumption]. Qed.
+
+Lemma tn_ok_split s st a x : tn_ok s st (a ++ x) ->
+  tn_ok s st a /\ (let '(st1, _, r1) := tn_dec false st a in tn_ok s st1 (r1 ++ x)).
+Proof.
+  intros [->|H]; [split; [left; reflexivity|]; destruct (tn_dec false st a) as [[? ?] ?]; left; reflexivity|].
+  rewrite (tn_dec_app (S (length a))) in H by lia. unfold tn_ok.
+  destruct (tn_dec false st a) as [[st1 e1] r1] eqn:E1.
+  destruct (tn_dec false st1 (r1 ++ x)) as [[st2 e2] r2] eqn:E2. cbn [fst] in H.
+  split; right; [|exact H]. cbn [fst].
+  destruct (t_bad st1) eqn:B; [|reflexivity].
+  pose proof (tn_dec_bad_mono false (S (length (r1 ++ x))) (r1 ++ x) ltac:(lia) st1 B) as M.
+  rewrite E2 in M. cbn [fst] in M. congruence.
+Qed.
+
+Lemma tn_segment_dec s : forall f sg st rem,
+  length sg < f -> tn_waiting st rem -> tn_ok s st (rem ++ sg) ->
+  tn_segment s f st rem sg = tn_dec false st (rem ++ sg).
+Proof.
+  induction f as [|f IH]; intros sg st rem Hf W OK; [lia|].
+  cbn [tn_segment]. destruct sg as [|c sg'].
+  - rewrite app_nil_r. symmetry. apply tn_waiting_dec. assumption.
+  - set (sg := c :: sg') in *. destruct (is_end st) eqn:En.
+    + rewrite tn_dec_step, En. reflexivity.
+    + pose proof (tn_waiting_short st rem W En) as L.
+      set (n := TN_INBUF - length rem).
+      assert (Hsplit : rem ++ sg = (rem ++ firstn n sg) ++ skipn n sg) by (rewrite <- app_assoc, firstn_skipn; reflexivity).
+      rewrite Hsplit in OK. apply tn_ok_split in OK as [OK1 OK2].
+      rewrite (tn_dec_any s st _ OK1). rewrite Hsplit. rewrite (tn_dec_app (S (length (rem ++ firstn n sg))) (rem ++ firstn n sg) (Nat.lt_succ_diag_r _)).
+      pose proof (tn_dec_waiting (S (length (rem ++ firstn n sg))) (rem ++ firstn n sg) ltac:(lia) st) as W1.
+      destruct (tn_dec false st (rem ++ firstn n sg)) as [[st1 e1] rem1].
+      rewrite (IH (skipn n sg) st1 rem1); [reflexivity| |assumption|assumption].
+      rewrite skipn_length. subst sg n. cbn [length] in *. lia.
+Qed.
+
+Lemma tn_conn_dec s : forall c st rem,
+  tn_waiting st rem -> tn_ok s st (rem ++ concat c) ->
+  tn_conn s st rem c = tn_dec false st (rem ++ concat c).
+Proof.
+  induction c as [|sg c IH]; intros st rem W OK; cbn [tn_conn concat] in *.
+  - rewrite app_nil_r. symmetry. apply tn_waiting_dec. assumption.
+  - rewrite app_assoc in OK |- *. apply tn_ok_split in OK as [OK1 OK2].
+    rewrite (tn_segment_dec s (S (length sg)) sg st rem) by (lia || assumption).
+    rewrite (tn_dec_app (S (length (rem ++ sg))) (rem ++ sg) (Nat.lt_succ_diag_r _) st (concat c)).
+    pose proof (tn_dec_waiting (S (length (rem ++ sg))) (rem ++ sg) ltac:(lia) st) as W1.
+    destruct (tn_dec false st (rem ++ sg)) as [[st1 e1] rem1].
+    rewrite (IH st1 rem1 W1 OK2). reflexivity.
+Qed.
+
+Lemma tn_start_waiting : tn_waiting TN_START [].
+Proof. right. reflexivity. Qed.
+
+(* ---- the statements ---- *)
+Lemma telnet_decoder_segments c st rem :
+  tn_waiting st rem -> tn_conn false st rem c = tn_dec false st (rem ++ concat c).
+Proof. intros W. apply tn_conn_dec; [assumption|left; reflexivity]. Qed.
 
 Lemma telnet_run c : run_model SVC_TELNET c = reference SVC_TELNET (concat c).
 Proof.
   change (run_model SVC_TELNET c) with (tn_run c).
   change (reference SVC_TELNET (concat c)) with (tn_expected (concat c)).
-  unfold tn_run, tn_expected. rewrite tn_feed_segs_concat. reflexivity.
+  unfold tn_run, tn_expected. rewrite (telnet_decoder_segments c TN_START [] tn_start_waiting). reflexivity.
 Qed.
 
 Lemma telnet_segmentation_invariant c1 c2 : concat c1 = concat c2 -> tn_run c1 = tn_run c2.
-Proof. intros E. unfold tn_run. rewrite !tn_feed_segs_concat, E. reflexivity. Qed.
-
-(* plain text lines: bytes >= 32 other than DEL are appended, CR is dropped, LF completes *)
-Definition tn_text (b : N) : bool := (32 <=? b)%N && negb (beq b 127%N).
-Definition tn_text_or_cr (b : N) : bool := tn_text b || beq b CR.
-
-Lemma tn_key_cr stage line pos : tn_key (mkTn stage line pos) CR = (mkTn stage line pos, []).
-Proof. destruct stage; reflexivity. Qed.
-
-Lemma tn_key_text stage line b :
-  stage <> TEnd -> tn_text b = true -> length line < TN_MAXLINE ->
-  tn_key (mkTn stage line (length line)) b = (mkTn stage (line ++ [b]) (length (line ++ [b])), []).
 Proof.
-  intros Hs Hb Hl. unfold tn_text in Hb. apply andb_true_iff in Hb as [H32 H127].
-  apply negb_true_iff in H127.
-  assert (E1 : beq b LF = false) by (unfold beq, LF in *; lia).
-  assert (E2 : beq b 4%N = false) by (unfold beq in *; lia).
-  assert (E3 : beq b 8%N = false) by (unfold beq in *; lia).
-  assert (E4 : beq b 21%N = false) by (unfold beq in *; lia).
-  assert (E5 : beq b 1%N = false) by (unfold beq in *; lia).
-  assert (E6 : beq b 5%N = false) by (unfold beq in *; lia).
-  assert (E7 : beq b 11%N = false) by (unfold beq in *; lia).
-  assert (E8 : (length line =? TN_MAXLINE) = false) by (apply Nat.eqb_neq; lia).
-  assert (E9 : firstn (length line) line ++ b :: skipn (length line) line = line ++ [b])
-    by (rewrite firstn_all, skipn_all; reflexivity).
-  assert (E10 : S (length line) = length (line ++ [b])) by (rewrite app_length; cbn [length]; lia).
-  destruct stage; try congruence; unfold tn_key; cbn [t_stage t_line t_pos];
-    rewrite E1, E2, H127, E3, E4, E5, E6, E7, H32, E8, E9, E10; reflexivity.
+  intros E. pose proof (telnet_run c1) as H1. pose proof (telnet_run c2) as H2.
+  change (run_model SVC_TELNET c1) with (tn_run c1) in H1. change (run_model SVC_TELNET c2) with (tn_run c2) in H2.
+  rewrite H1, H2, E. reflexivity.
 Qed.
 
-Lemma tn_feed_text l : forall stage line,
-  stage <> TEnd -> forallb tn_text_or_cr l = true ->
-  length line + length (filter tn_text l) <= TN_MAXLINE ->
-  tn_feed (mkTn stage line (length line)) l =
-  (mkTn stage (line ++ filter tn_text l) (length (line ++ filter tn_text l)), []).
+(* the code before 1a2f0db: the reference reading on streams without an undecodable byte only *)
+Lemma telnet_run_before_1a2f0db c :
+  tn_decodable (concat c) = true -> tn_run_before_1a2f0db c = reference SVC_TELNET (concat c).
 Proof.
-  induction l as [|b l IH]; intros stage line Hs Hl Hlen; cbn [tn_feed filter forallb] in *.
-  - rewrite app_nil_r. reflexivity.
-  - apply andb_true_iff in Hl as [Hb Hl]. unfold tn_text_or_cr in Hb.
-    destruct (tn_text b) eqn:Et.
-    + cbn [length] in Hlen. rewrite (tn_key_text stage line b Hs Et) by lia.
-      rewrite (IH stage (line ++ [b]) Hs Hl) by (rewrite app_length; cbn [length]; lia).
+  intros D. change (reference SVC_TELNET (concat c)) with (tn_expected (concat c)).
+  unfold tn_run_before_1a2f0db, tn_expected. rewrite (tn_conn_dec true c TN_START [] tn_start_waiting); [reflexivity|].
+  right. unfold tn_decodable in D. apply negb_true_iff in D. exact D.
+Qed.
+
+(* a valid multi-byte character cut anywhere inside: the bytes held are kept, all of them *)
+Lemma u8_prefix_kept c n :
+  u8_head c = U8Rune (length c) -> 0 < n < length c -> u8_head (firstn n c) = U8More.
+Proof.
+  destruct c as [|b0 [|b1 [|b2 [|b3 [|b4 t]]]]]; cbn [length]; intros H Hn; try lia.
+  - destruct n as [|[|n]]; try lia. cbn [firstn u8_head] in *. u8_cases; try discriminate; try reflexivity; inversion H.
+  - destruct n as [|[|[|n]]]; try lia; cbn [firstn u8_head] in *; u8_cases; try discriminate; try reflexivity; inversion H.
+  - destruct n as [|[|[|[|n]]]]; try lia; cbn [firstn u8_head] in *; u8_cases; try discriminate; try reflexivity; inversion H.
+  - exfalso.
+    assert (X : forall m, u8_head (b0 :: b1 :: b2 :: b3 :: b4 :: t) = U8Rune m -> m <= 4).
+    { intros m Hm. cbn [u8_head] in Hm. u8_cases; try discriminate; inversion Hm; lia. }
+    apply X in H. lia.
+Qed.
+
+Lemma multibyte_lead c : u8_head c = U8Rune (length c) -> 1 < length c ->
+  exists b0 t, c = b0 :: t /\ (128 <=? b0)%N = true.
+Proof.
+  destruct c as [|b0 t]; cbn [length]; intros H L; [lia|]. exists b0, t. split; [reflexivity|].
+  cbn [u8_head] in H. destruct (b0 <? 128)%N eqn:E; [inversion H; lia|]. lia.
+Qed.
+
+Lemma next_key_high paste b0 t : (128 <=? b0)%N = true ->
+  next_key paste (b0 :: t) =
+  match u8_head (b0 :: t) with
+  | U8More => NMore
+  | U8Bad => NBad t
+  | U8Rune n => let c := firstn n (b0 :: t) in if beqs c U_FFFD then NBad (skipn n (b0 :: t)) else NKey (KRune c) (skipn n (b0 :: t))
+  end.
+Proof.
+  intros H. unfold next_key, beq, ESC.
+  repeat match goal with |- context [(b0 =? ?k)%N] => destruct (N.eqb_spec b0 k); [lia|] end.
+  rewrite !andb_false_r. reflexivity.
+Qed.
+
+Lemma next_key_prefix_kept paste c n :
+  u8_head c = U8Rune (length c) -> 0 < n < length c -> next_key paste (firstn n c) = NMore.
+Proof.
+  intros H Hn. destruct (multibyte_lead c H ltac:(lia)) as [b0 [t [-> Hb]]].
+  pose proof (u8_prefix_kept _ n H Hn) as K. destruct n as [|n]; [lia|]. cbn [firstn] in *.
+  rewrite (next_key_high paste b0 _ Hb), K. reflexivity.
+Qed.
+
+(* text: a valid character other than U+FFFD, not a control character, not DEL *)
+Definition tn_char (c : bytes) : bool :=
+  match u8_head c with U8Rune n => n =? length c | _ => false end
+  && negb (beqs c U_FFFD)
+  && match c with [x] => (32 <=? x)%N && negb (beq x 127) | _ => true end.
+
+Lemma next_key_char c x : tn_char c = true -> next_key false (c ++ x) = NKey (KRune c) x.
+Proof.
+  unfold tn_char. intros H. apply andb_true_iff in H as [H H3]. apply andb_true_iff in H as [H1 H2].
+  destruct (u8_head c) as [| |n] eqn:U; try discriminate. apply Nat.eqb_eq in H1. subst n.
+  apply negb_true_iff in H2.
+  pose proof (u8_head_app_rune c x _ U) as UA.
+  destruct c as [|b0 t]; [discriminate|].
+  destruct (128 <=? b0)%N eqn:Hb.
+  - cbn [app]. rewrite (next_key_high false b0 _ Hb). change (b0 :: t ++ x) with ((b0 :: t) ++ x). rewrite UA.
+    cbv zeta. rewrite firstn_app_l, firstn_all, skipn_app_l, skipn_all by lia. rewrite H2. reflexivity.
+  - assert (t = []) as ->.
+    { cbn [u8_head] in U. replace (b0 <? 128)%N with true in U by lia. inversion U as [L]. destruct t; [reflexivity|discriminate]. }
+    apply andb_true_iff in H3 as [H3 H4]. apply negb_true_iff in H4.
+    cbn [app]. unfold next_key, beq, ESC in *.
+    repeat match goal with |- context [(b0 =? ?k)%N] => destruct (N.eqb_spec b0 k); [lia|] end.
+    rewrite !andb_false_r. cbn [u8_head]. replace (b0 <? 128)%N with true by lia.
+    cbv zeta. cbn [firstn skipn]. unfold U_FFFD. cbn [beqs]. unfold beq.
+    destruct (b0 =? 239)%N eqn:E; [lia|]. reflexivity.
+Qed.
+
+Lemma rune_is_char c k : tn_char c = true -> (k < 32)%N \/ k = 127%N -> rune_is (KRune c) k = false.
+Proof.
+  unfold tn_char, rune_is. intros H Hk. apply andb_true_iff in H as [_ H3].
+  destruct c as [|x [|y t]]; try reflexivity.
+  apply andb_true_iff in H3 as [H3 H4]. apply negb_true_iff in H4. unfold beq in *. lia.
+Qed.
+
+Lemma tn_key_char stage line pasted bad c :
+  stage <> TEnd -> tn_char c = true -> length line < TN_MAXLINE ->
+  tn_key (mkTn stage line (length line) false pasted bad) (KRune c) =
+  (mkTn stage (line ++ [c]) (length (line ++ [c])) false false bad, []).
+Proof.
+  intros Hs Hc Hl. unfold tn_key.
+  replace (is_end _) with false by (destruct stage; try reflexivity; congruence).
+  cbn [t_paste negb t_line t_stage t_pos t_bad t_pasted].
+  rewrite (rune_is_char c 4 Hc) by (left; lia). cbn [andb].
+  unfold tn_handle. cbn [t_paste negb t_line t_stage t_pos t_bad t_pasted andb].
+  rewrite (rune_is_char c 10 Hc), (rune_is_char c 13 Hc), (rune_is_char c 127 Hc), (rune_is_char c 4 Hc), (rune_is_char c 21 Hc) by (try (left; lia); right; reflexivity).
+  assert (P : printable c = true).
+  { unfold tn_char in Hc. apply andb_true_iff in Hc as [_ H3]. unfold printable. destruct c as [|x [|y t]]; try reflexivity.
+    apply andb_true_iff in H3 as [H3 _]. exact H3. }
+  rewrite P. replace (length line =? TN_MAXLINE) with false by (symmetry; apply Nat.eqb_neq; lia).
+  rewrite firstn_all, skipn_all. rewrite app_length. cbn [length]. rewrite Nat.add_1_r. reflexivity.
+Qed.
+
+Lemma tn_key_cr stage line pasted bad :
+  stage <> TEnd ->
+  tn_key (mkTn stage line (length line) false pasted bad) (KRune [CR]) = (mkTn stage line (length line) false false bad, []).
+Proof. intros Hs. destruct stage; try congruence; reflexivity. Qed.
+
+Lemma tn_key_lf line pasted bad :
+  tn_key (mkTn TSess line (length line) false pasted bad) (KRune [LF]) =
+  (mkTn TSess [] 0 false false bad, [mkEv EV_TN_CMD [concat line]]).
+Proof. destruct line; reflexivity. Qed.
+
+Definition tn_char_or_cr (c : bytes) : bool := tn_char c || beqs c [CR].
+
+Lemma beqs_eq a : forall b, beqs a b = true -> a = b.
+Proof.
+  induction a as [|x a IH]; intros [|y b] H; try discriminate; [reflexivity|].
+  cbn [beqs] in H. apply andb_true_iff in H as [H1 H2]. unfold beq in H1. apply N.eqb_eq in H1. rewrite (IH _ H2), H1. reflexivity.
+Qed.
+
+(* a command line of characters with CRs anywhere, ended by LF, typed in the session stage:
+   exactly one event carrying exactly the characters' bytes *)
+Lemma tn_session_line cs : forall line pasted bad,
+  forallb tn_char_or_cr cs = true -> length line + length (filter tn_char cs) <= TN_MAXLINE ->
+  tn_dec false (mkTn TSess line (length line) false pasted bad) (concat cs ++ [LF]) =
+  (mkTn TSess [] 0 false false bad, [mkEv EV_TN_CMD [concat (line ++ filter tn_char cs)]], []).
+Proof.
+  induction cs as [|c cs IH]; intros line pasted bad Hc Hl; cbn [concat filter forallb] in *.
+  - rewrite app_nil_r. cbn [app]. rewrite tn_dec_step.
+    change (is_end _) with false. cbv iota.
+    change (next_key _ [LF]) with (NKey (KRune [LF]) []). cbv iota. rewrite tn_key_lf.
+    rewrite tn_dec_step. reflexivity.
+  - apply andb_true_iff in Hc as [Hc Hcs]. unfold tn_char_or_cr in Hc. rewrite <- app_assoc.
+    rewrite tn_dec_step. change (is_end _) with false. cbv iota. cbn [t_paste].
+    destruct (tn_char c) eqn:Tc.
+    + cbn [length] in Hl. rewrite (next_key_char c _ Tc). rewrite tn_key_char by (congruence || assumption || lia).
+      rewrite IH by (assumption || (rewrite app_length; cbn [length]; lia)).
       rewrite <- app_assoc. reflexivity.
-    + cbn [orb] in Hb. unfold beq in Hb. apply N.eqb_eq in Hb. subst b.
-      rewrite tn_key_cr. rewrite (IH stage line Hs Hl Hlen). reflexivity.
-Qed.
-
-(* a command line of text ended by LF, in the session stage: exactly one event carrying the
-   text with the CRs removed - wherever it is cut *)
-Lemma tn_session_line l line :
-  forallb tn_text_or_cr l = true -> length line + length (filter tn_text l) <= TN_MAXLINE ->
-  tn_feed (mkTn TSess line (length line)) (l ++ [LF]) =
-  (mkTn TSess [] 0, [mkEv EV_TN_CMD [line ++ filter tn_text l]]).
-Proof.
-  intros Hl Hlen. rewrite tn_feed_app. rewrite (tn_feed_text l TSess line) by (congruence || assumption).
-  reflexivity.
+    + cbn [orb] in Hc. apply beqs_eq in Hc. subst c.
+      change (next_key false ([CR] ++ concat cs ++ [LF])) with (NKey (KRune [CR]) (concat cs ++ [LF])). cbv iota.
+      rewrite tn_key_cr by congruence. rewrite IH by assumption. reflexivity.
 Qed.
 
 (* ---- snmp ---- *)
